@@ -91,7 +91,7 @@ pub fn generate(seed: u64, thorough: bool) -> Tree {
     let odd_names = swarm.chance(1, 2);
     let double_md = swarm.chance(1, 12);
     let dirs: Vec<&str> = if swarm.chance(1, 3) { vec![""] } else { vec!["", "", "sub", "sub/deep", "with space", "dötted", ".hidden", "x.md", ".iwe"] };
-    let plain = ["a", "b", "c", "d", "e", "f", "g", "h", "i", "j", "k", "l", "m", "n", "o"];
+    let plain = ["a", "b", "c", "d", "e", "f", "g", "h", "i", "j", "k", "l", "m", "n", "o", "Todo", "todo", "B", "2024.01.15", "2024.01", "v1.2 release"];
     let long_name: String = format!("L{}", "x".repeat(swarm.range(243, 251))); // + ".md" = 247..255 bytes
     let odd: Vec<&str> = vec![
         "note one", "ünï", "c.d", "2024-01-01", "UPPER", "日本", "a b c", "x.y.z", "-dash", "q", "release%20notes", "100%", "a&b", "x=y", "semi;colon", "(paren)", "[brk]", "comma,s",
